@@ -139,7 +139,7 @@ class Real:
     def ev_tuple(self, c, ev):
         inv = {v: k for k, v in TY.items()}
         return (c, tuple(sorted(inv.get(t, repr(t)) for t in ev.resource_types)), ev.resource_name, bool(ev.is_factory),
-                ev.source is self.ctx[c], ev.topic == "resource_added")
+                ev.source is self.ctx[c], ev.topic == "resource_added", ev.resource_description)
 
     def types_arg(self, ts):
         cls = [TY[t] for t in sorted(ts)]
@@ -682,7 +682,7 @@ async def check_step(real: Real, obs, to_enc, before_proj, failed_expected):
         props = attribute(obs, exp_r, got_r, "proj", (cnum == c, involved, failed_expected))
         return "proj", (cnum, e[0]), (cnum, g[0]), props
     # events
-    exp_ev = [(e["c"], tuple(sorted(e["types"])), e["name"], bool(e["fac"]), True, True) for e in obs.get("ev", [])]
+    exp_ev = [(e["c"], tuple(sorted(e["types"])), e["name"], bool(e["fac"]), True, True, e["desc"]) for e in obs.get("ev", [])]
     got_ev = []
     for cc, log in real.events.items():
         for ev in log[ev_before.get(cc, 0):]:
@@ -692,7 +692,7 @@ async def check_step(real: Real, obs, to_enc, before_proj, failed_expected):
         if obs["r"] == "gen" and len(got_ev) == 1 and len(exp_ev) == 1:
             # a generation that could not take all of the factory's keys may announce the registered subset instead
             free_types = tuple(sorted(k.split(":")[0] for k in obs.get("free", [])))
-            ok = got_ev[0] == (exp_ev[0][0], free_types, exp_ev[0][2], False, True, True)
+            ok = got_ev[0] == (exp_ev[0][0], free_types, exp_ev[0][2], False, True, True, exp_ev[0][6])
         if not ok:
             return "events", exp_ev, got_ev, attribute(obs, exp_r, got_r, "events", None)
     # teardown callbacks run by this step
